@@ -285,7 +285,7 @@ Proof. revert ps ls'; induction ls as [|l t IH]; intros [|p pt] ls' Hlen H; cbn 
 Lemma loco_solve_frame (l l' : LocoR) p dt on : loco_solve l p dt on = Ok l' ->
   lim l' = lim l /\ rg l' = rg l /\ is_bel l' = is_bel l /\ em l' = em l /\ pout l' = p.
 Proof.
-  unfold loco_solve. intros H. apply bind_ok in H. destruct H as (t & Ht & H). inversion H; subst l'; clear H.
+  unfold loco_solve. intros H. cbv zeta in H. apply bind_ok in H; destruct H as ([] & _ & H). apply bind_ok in H. destruct H as (t & Ht & H). inversion H; subst l'; clear H.
   unfold lim, rg, is_bel, em, pout, loco_edrv_max, loco_edrv.
   cbn [lc_state lc_type loco_with ls_pwr_out_max ls_pwr_regen_max ls_pwr_out]. numR.
   destruct (lc_type l) as [c|b].
@@ -607,7 +607,7 @@ Theorem regen_within_limit (l l' : LocoR) p dt on : loco_solve l p dt on = Ok l'
   - es_pwr_mech_prop_out (edrv_state (loco_edrv l')) <= es_pwr_mech_regen_max (edrv_state (loco_edrv l)) /\
   (es_pwr_mech_regen_max (edrv_state (loco_edrv l)) = 0 -> 0 <= p -> es_pwr_mech_prop_out (edrv_state (loco_edrv l')) = p).
 Proof.
-  unfold loco_solve. intros H. apply bind_ok in H. destruct H as (t & Ht & H). inversion H; subst l'; clear H.
+  unfold loco_solve. intros H. cbv zeta in H. apply bind_ok in H; destruct H as ([] & _ & H). apply bind_ok in H. destruct H as (t & Ht & H). inversion H; subst l'; clear H.
   unfold loco_edrv. cbn [lc_type loco_with].
   destruct (lc_type l) as [c|b].
   - apply bind_ok in Ht. destruct Ht as (c' & Hc & Ht). inversion Ht; subst t; clear Ht.
